@@ -133,9 +133,13 @@ def two_theta_contract(chk, mod):
             chk.level = 'other'
             chk.level_note = 'two_theta is not in the recognised Kahan form: accuracy decided by the bounded stand-in only'
             print(f'DEMOTED function={pre} reason=result is not provably 2*atan2(|u-v|,|u+v|); accuracy clause bounded only')
+            # attempted directly; kept only if they are proved -- an unproved attempt on an unrecognised formula says nothing (the
+            # formula may be a correct alternative): the comparison with the 60-digit reference decides then
             nn = [n1 > 0, n2 > 0]
-            chk.prove(f'{pre}/range-0-pi[{tag}]', hy + nn, z3.And(th >= 0, th <= PI), timeout=20, meta={'no_retry': True})
-            chk.prove(f'{pre}/cosine-definition[{tag}]', hy + nn, COS(th) * n1 * n2 == d12, timeout=20, meta={'no_retry': True})
+            for nm, goal in (('range-0-pi', z3.And(th >= 0, th <= PI)), ('cosine-definition', COS(th) * n1 * n2 == d12)):
+                o = Obligation(f'{pre}/{nm}[{tag}]', hy + nn, goal, timeout=20, meta={'no_retry': True})
+                if chk.solve_now(o, register=False) == 'discharged':
+                    chk.obls.append(o)
     # operand-shape variants (scalar incident beam with per-pixel scattered beams is the usual case): same structural obligation
     for stag, pol in {'incident scalar, scattered 1-d': lambda n: () if n == 'b1' else ('pixel',), 'both 1-d': lambda n: ('pixel',),
                       'incident 1-d, scattered scalar': lambda n: ('pixel',) if n == 'b1' else (),
@@ -324,6 +328,28 @@ def accuracy_failures(n, seed, limit=3):
                 if len(fails) < limit:
                     fails.append({'id': f'dir{len(fails)}', 'incident_beam': b1, 'scattered_beam': b2, 'units': [unit1, unit2],
                                   'observed': float(r.value), 'reference': mp.nstr(ref, 20), 'abs_error': err})
+    # per-pixel arrays: the same pairs evaluated as arrays that mix nearly parallel, perpendicular and nearly antiparallel pairs --
+    # every element must be as accurate as when it is evaluated alone (an array-wide shortcut may not decide for all pixels)
+    import numpy as np
+    pairs = list(_grid(n, seed))
+    for lo in range(0, len(pairs), 64):
+        chunk = pairs[lo:lo + 64]
+        b1s, b2s = np.array([p[0] for p in chunk], dtype=float), np.array([p[1] for p in chunk], dtype=float)
+        try:
+            arr = bl.two_theta(incident_beam=sc.vectors(dims=['pixel'], values=b1s, unit='m'), scattered_beam=sc.vectors(dims=['pixel'], values=b2s, unit='m'))
+        except Exception as e:
+            if len(fails) < limit:
+                fails.append({'id': f'array{lo}', 'array_of_pairs': [lo, lo + len(chunk)], 'observed': f'{type(e).__name__}: {e}'})
+            continue
+        for k, (b1, b2) in enumerate(chunk):
+            ref = _exact_angle(b1, b2)
+            err = float(abs(mp.mpf(float(arr.values[k])) - ref))
+            worst = max(worst, err)
+            if not (err <= 2e-15):
+                if len(fails) < limit:
+                    fails.append({'id': f'array{lo}-{k}', 'array_of_pairs': [lo, lo + len(chunk)], 'element': k, 'incident_beam': b1, 'scattered_beam': b2,
+                                  'units': ['m', 'm'], 'observed_in_the_array': float(arr.values[k]), 'reference': mp.nstr(ref, 20), 'abs_error': err,
+                                  'grid': [n, seed]})
     return fails, worst
 
 
@@ -339,6 +365,11 @@ def replay(rec):
     name = rec['obligation']
     if '/bounded/' in name:
         f = rec.get('meta', {}).get('replay') or rec.get('model')
+        if 'array_of_pairs' in f:       # an element of a per-pixel array: re-run the grid it came from
+            n_, seed_ = f.get('grid', [1500, 1234])
+            fails, worst = accuracy_failures(int(n_), int(seed_), limit=10 ** 6)
+            hit = [x for x in fails if x.get('id') == f.get('id')]
+            return {'reproduced': bool(hit), 'case': hit[:1]}
         import scipp as sc
         import mpmath as mp
         from vf.realrun import real_module
